@@ -832,12 +832,23 @@ func (s *SecureChannel) handleOpenSecureChannelRequest(reqID uint32, svc ua.Requ
 	return nil
 }
 
+// renewalDelay returns how long after a security token has been issued the
+// client requests a new one.
+//
+// https://reference.opcfoundation.org/v104/Core/docs/Part4/5.5.2/#5.5.2.1
+// Clients should request a new SecurityToken after 75 % of its lifetime has elapsed. This should ensure that
+// clients will receive the new SecurityToken before the old one actually expire
+//
+// The delay is computed on the duration itself and not on whole seconds:
+// truncating to seconds renewed a token with a lifetime of 2.5s after 1s (less
+// than half of its lifetime) and a token with a lifetime of 1s immediately,
+// in a tight loop.
+func renewalDelay(lifetime time.Duration) time.Duration {
+	return lifetime / 4 * 3
+}
+
 func (s *SecureChannel) scheduleRenewal(instance *channelInstance) {
-	// https://reference.opcfoundation.org/v104/Core/docs/Part4/5.5.2/#5.5.2.1
-	// Clients should request a new SecurityToken after 75 % of its lifetime has elapsed. This should ensure that
-	// clients will receive the new SecurityToken before the old one actually expire
-	const renewAfter = 0.75
-	when := time.Second * time.Duration(instance.revisedLifetime.Seconds()*renewAfter)
+	when := renewalDelay(instance.revisedLifetime)
 
 	debug.Printf("uasc %d: security token is refreshed at %s (%s). channelID=%d tokenID=%d", s.c.ID(), time.Now().UTC().Add(when).Format(time.RFC3339), when, instance.secureChannelID, instance.securityTokenID)
 
